@@ -20,8 +20,8 @@ SUMM = kernel_summaries('scalar', 's')
 from props.C08 import byte_names
 
 
-def check_one(ck, r, m, d, failures, lay=0):
-    tag = 'C09.m%d.d%d' % (m, d) + ('.layout%d' % lay if lay else '')
+def check_one(ck, r, m, d, failures, lay=0, label=''):
+    tag = 'C09.m%d.d%d' % (m, d) + ('.layout%d' % lay if lay else '') + ('.' + label if label else '')
     ok = len(r.paths) == 1 and r.paths[0]['end'] == 'return'
     if not ck.ground(tag + '.shape', 'single returning path', ok, str([(p['end'], p.get('panic') or p.get('err')) for p in r.paths][:2])):
         failures.append(tag)
@@ -45,7 +45,8 @@ def check_one(ck, r, m, d, failures, lay=0):
         ' (oversize-DST rule)' if d > 255 else ''), '(assert (not %s))' % limbs_eq(o['S']['f'], spec))], timeout=90)
     if ans[0] != 'unsat':
         failures.append(tag + '.value')
-    inputs = {n['n'].rsplit('_', 1)[0] for n in r.nodes if n['op'] == 'var'}
+    ocone = set(r.cone(o['S']['f']))
+    inputs = {n['n'].rsplit('_', 1)[0] for n in r.nodes if n['op'] == 'var' and n['id'] in ocone}
     if not ck.ground(tag + '.pure', 'depends on msg and DST bytes only; fresh scalar returned; arguments not written', inputs <= {'msg', 'dst', 'msgbuf', 'dstbuf', 'frame'} and bool(o['sfresh'].get('fresh')) and not p['writes'], str(p['writes'][:1])):
         failures.append(tag + '.pure')
 
@@ -61,6 +62,8 @@ def run(tier, seed):
     jobs = [{'id': 'h_%d_%d' % (m, d), 'harness': 'vh_hash', 'args': [2, m, d, 0], 'summaries': SUMM} for (m, d) in combos]
     from props.C08 import LAYCOMBOS
     jobs += [{'id': 'h_%d_%d_L%d' % (m, d, lay), 'harness': 'vh_hash', 'args': [2, m, d, lay], 'summaries': SUMM} for lay in (1, 2, 3, 4) for (m, d) in LAYCOMBOS]
+    from props.C08 import TWICE
+    jobs += [{'id': 'tw_%d_%d_%d' % (m, d, mode), 'harness': 'vh_hash_twice', 'args': [2, m, d, mode], 'summaries': SUMM} for mode in (0, 1) for (m, d) in TWICE]
     jobs += [{'id': 'nodst%d' % i, 'harness': 'vh_hash_nodst', 'args': [2, 3, i], 'summaries': SUMM} for i in (0, 1)]
     runs = ck.absorb(core.symx_parallel(HARNESS, jobs, chunks=12))
     ck.extra['_runs'] = runs
@@ -78,6 +81,9 @@ def run(tier, seed):
     for lay in (1, 2, 3, 4):
         for (m, d) in LAYCOMBOS:
             check_one(ck, R_['h_%d_%d_L%d' % (m, d, lay)], m, d, failures, lay)
+    for mode in (0, 1):
+        for (m, d) in TWICE:
+            check_one(ck, R_['tw_%d_%d_%d' % (m, d, mode)], m, d, failures, lay=0, label='second-call%d' % mode)
     # OS2IP split lemma
     ck.prove('C09.split', 'OS2IP(48 bytes) = a + b*2^192', '(declare-const a (_ BitVec 192))(declare-const b (_ BitVec 192))\n(assert (not (= (concat b a) (bvadd ((_ zero_extend 192) a) (bvshl ((_ zero_extend 192) b) (_ bv192 384))))))', timeout=30)
     for i in (0, 1):
@@ -88,12 +94,8 @@ def run(tier, seed):
     if any('.value' in f for f in failures) and not ck.violations:
         wide_battery(ck, failures)
     if (failures or any(not o['ok'] for o in ck.obls)) and not ck.violations:
-        import random
-        rng = random.Random(ck.seed + 13)
-        cases = [{'kind': 'h2s', 'a': ''.join('%02x' % rng.getrandbits(8) for _ in range(m)), 'b': ''.join('%02x' % rng.getrandbits(8) for _ in range(d))} for (m, d) in sorted(set(combos))[:80]]
-        cases += [{'kind': 'h2-layout', 'op': 'S', 'n': lay, 'a': ''.join('%02x' % rng.getrandbits(8) for _ in range(m)), 'b': ''.join('%02x' % rng.getrandbits(8) for _ in range(d))} for lay in (1, 2, 3, 4) for (m, d) in LAYCOMBOS]
-        cases += [{'kind': 'h2-panic', 'a': 'aa', 'b': '', 'n': 0}, {'kind': 'h2-panic', 'a': 'aa', 'b': '', 'n': 1}]
-        cases += [{'kind': 'xmd', 'a': 'ab' * m, 'b': 'cd' * d, 'n': 48} for (m, d) in [(0, 1), (3, 16), (64, 255), (64, 256), (5, 300)]]
+        from props import fallback
+        cases = fallback.cases_for('C09', ck.seed)
         path = ck.save_replay({'property': 'C09', 'cases': cases, 'failed': failures[:10]})
         ok, out = core.go_test(path)
         if not ok and 'MISMATCH' in out:
